@@ -1051,6 +1051,11 @@ def c16(ctx):
                       "five-minute fallback, retry after the leader's context ended, give-up at the caller's own deadline. TLC checks LookupGate, "
                       "Bounded and NotCollateral over callers x deadlines x cancellations x services that answer, fail or hang (explicit clock); "
                       "random histories of the real store under synctest (hanging service, clock advanced up to 20 virtual minutes) are validated")
+    # long lookup-heavy histories in which most lookups fail: nothing a failed lookup leaves behind may wear the store out
+    rw, stw = store_random(ctx, "lookupwear", 500 if ctx.thorough else 60, parts=16 if ctx.thorough else 8)
+    cov["traces_validated_against_impl"] += stw["accepted"]
+    cov["histories_recorded"] += stw["histories"]
+    cov["trace_events_validated"] += stw["events"]
     # "thereafter polled and cached like any other": lookups of different names overlapping their cache writes (real goroutines, slow cache)
     cov["concurrent_flush_runs"] = cache_order(ctx, 150 if ctx.thorough else 20)
     return "model_checking", cov, ["virtual time; a hanging service is a request the driver never releases"]
